@@ -458,16 +458,23 @@ def _build_eval_tree(
                     assert result is not None
                     return result, index - 1
             elif token_text == "(":
-                # gather parenthetical group
-                right, index = _build_eval_tree(
-                    tokens, op_priority, index + 1, 0, token_text
-                )
-                if not tokens[index][1] == ")":
-                    raise DefinitionSyntaxError("weird exit from parentheses")
                 if result:
                     # implicit op with a parenthetical group, i.e. "3 (kg ** 2)"
+                    if op_priority[""] <= op_priority.get(prev_op, -1):
+                        # previous operator is higher priority than implicit, so end
+                        # previous binary op
+                        return result, index - 1
+                    right, index = _build_eval_tree(
+                        tokens, op_priority, index, depth + 1, ""
+                    )
                     result = EvalTreeNode(left=result, right=right)
                 else:
+                    # gather parenthetical group
+                    right, index = _build_eval_tree(
+                        tokens, op_priority, index + 1, 0, token_text
+                    )
+                    if not tokens[index][1] == ")":
+                        raise DefinitionSyntaxError("weird exit from parentheses")
                     # get first token
                     result = right
             elif token_text in op_priority:
